@@ -1,7 +1,8 @@
 import AkVerif.Lemmas.Xls
 /-!
-Helper lemmas for C18, third part: Python's string order (`ltCps`), `sorted` (`sortCps`) and the
-text `get_attr_origin` composes for a whole ranged attribute (`rangeDescr`).
+Helper lemmas for C18, third part: Python's string order (`ltCps`), the order of coordinates by
+`_coord_sort_key` (`ltCoord`), stable sorting (`sortBy`) and the text `get_attr_origin` composes
+for a whole ranged attribute (`rangeDescr`).
 -/
 namespace Xls
 open Ak
@@ -104,17 +105,140 @@ theorem leCps_trans (a b c : List Char) (h1 : ltCps b a = false) (h2 : ltCps c b
       subst this
       rw [h2] at h; cases h
 
-/-- sorted: no later element is smaller than an earlier one -/
-def SortedCps (l : List (List Char)) : Prop := l.Pairwise (fun a b => ltCps b a = false)
+/-! ## order of the sort keys `(len(column), column, row)` -/
 
-theorem mem_insertSorted (x : List Char) :
-    ∀ (l : List (List Char)) (y : List Char), y ∈ insertSorted x l ↔ y = x ∨ y ∈ l := by
+theorem ltKey_irrefl (a : Nat × List Char × Nat) : ltKey a a = false := by
+  simp [ltKey, ltCps_irrefl]
+
+theorem ltKey_trans (a b c : Nat × List Char × Nat) (h1 : ltKey a b = true) (h2 : ltKey b c = true) :
+    ltKey a c = true := by
+  obtain ⟨a1, a2, a3⟩ := a
+  obtain ⟨b1, b2, b3⟩ := b
+  obtain ⟨c1, c2, c3⟩ := c
+  simp only [ltKey] at h1 h2 ⊢
+  by_cases hab : a1 < b1
+  · by_cases hbc : b1 < c1
+    · have : a1 < c1 := by omega
+      simp [this]
+    · by_cases hcb : c1 < b1
+      · simp [hbc, hcb] at h2
+      · have : a1 < c1 := by omega
+        simp [this]
+  · by_cases hba : b1 < a1
+    · simp [hab, hba] at h1
+    · simp only [hab, hba, if_false] at h1
+      by_cases hbc : b1 < c1
+      · have : a1 < c1 := by omega
+        simp [this]
+      · by_cases hcb : c1 < b1
+        · simp [hbc, hcb] at h2
+        · simp only [hbc, hcb, if_false] at h2
+          have e1 : ¬ a1 < c1 := by omega
+          have e2 : ¬ c1 < a1 := by omega
+          simp only [e1, e2, if_false]
+          cases hl1 : ltCps a2 b2 with
+          | true =>
+            cases hl2 : ltCps b2 c2 with
+            | true => simp [ltCps_trans a2 b2 c2 hl1 hl2]
+            | false =>
+              rw [hl2] at h2
+              cases hl3 : ltCps c2 b2 with
+              | true => simp [hl3] at h2
+              | false =>
+                have : b2 = c2 := ltCps_total b2 c2 hl2 hl3
+                subst this
+                simp [hl1]
+          | false =>
+            rw [hl1] at h1
+            cases hl1' : ltCps b2 a2 with
+            | true => simp [hl1'] at h1
+            | false =>
+              have : a2 = b2 := ltCps_total a2 b2 hl1 hl1'
+              subst this
+              simp only [hl1', Bool.false_eq_true, if_false, decide_eq_true_eq] at h1
+              cases hl2 : ltCps a2 c2 with
+              | true => simp
+              | false =>
+                rw [hl2] at h2
+                cases hl3 : ltCps c2 a2 with
+                | true => simp [hl3] at h2
+                | false =>
+                  simp only [hl3, Bool.false_eq_true, if_false, decide_eq_true_eq] at h2
+                  simp only [Bool.false_eq_true, if_false, decide_eq_true_eq]
+                  omega
+
+theorem ltKey_total (a b : Nat × List Char × Nat) (h1 : ltKey a b = false) (h2 : ltKey b a = false) :
+    a = b := by
+  obtain ⟨a1, a2, a3⟩ := a
+  obtain ⟨b1, b2, b3⟩ := b
+  simp only [ltKey] at h1 h2
+  by_cases hab : a1 < b1
+  · simp [hab] at h1
+  · by_cases hba : b1 < a1
+    · simp [hba] at h2
+    · simp only [hab, hba, if_false] at h1 h2
+      cases hl1 : ltCps a2 b2 with
+      | true => simp [hl1] at h1
+      | false =>
+        cases hl2 : ltCps b2 a2 with
+        | true => simp [hl2] at h2
+        | false =>
+          simp only [hl1, hl2, Bool.false_eq_true, if_false, decide_eq_false_iff_not] at h1 h2
+          have e1 : a1 = b1 := by omega
+          have e2 : a2 = b2 := ltCps_total a2 b2 hl1 hl2
+          have e3 : a3 = b3 := by omega
+          rw [e1, e2, e3]
+
+theorem ltKey_asymm (a b : Nat × List Char × Nat) (h : ltKey a b = true) : ltKey b a = false := by
+  cases hba : ltKey b a with
+  | false => rfl
+  | true =>
+    have := ltKey_trans a b a h hba
+    rw [ltKey_irrefl] at this; cases this
+
+theorem leKey_trans (a b c : Nat × List Char × Nat) (h1 : ltKey b a = false) (h2 : ltKey c b = false) :
+    ltKey c a = false := by
+  cases h : ltKey c a with
+  | false => rfl
+  | true =>
+    cases hab : ltKey a b with
+    | true =>
+      have := ltKey_trans c a b h hab
+      rw [h2] at this; cases this
+    | false =>
+      have : a = b := ltKey_total a b hab h1
+      subst this
+      rw [h2] at h; cases h
+
+/-! ## stable insertion sort -/
+
+/-- what the sort needs from the order: `x < y → ¬ y < x` and `x ≤ y ≤ z → x ≤ z`
+(`x ≤ y` written `lt y x = false`) -/
+structure WeakOrder {α : Type} (lt : α → α → Bool) : Prop where
+  asymm : ∀ a b, lt a b = true → lt b a = false
+  le_trans : ∀ a b c, lt b a = false → lt c b = false → lt c a = false
+
+theorem WeakOrder.irrefl {α : Type} {lt : α → α → Bool} (w : WeakOrder lt) (a : α) : lt a a = false := by
+  cases h : lt a a with
+  | false => rfl
+  | true => have := w.asymm a a h; rw [h] at this; cases this
+
+theorem weakOrder_ltCps : WeakOrder ltCps := ⟨ltCps_asymm, leCps_trans⟩
+
+theorem weakOrder_ltCoord : WeakOrder ltCoord :=
+  ⟨fun _ _ h => ltKey_asymm _ _ h, fun _ _ _ h1 h2 => leKey_trans _ _ _ h1 h2⟩
+
+/-- sorted: no later element is smaller than an earlier one -/
+def SortedBy {α : Type} (lt : α → α → Bool) (l : List α) : Prop := l.Pairwise (fun a b => lt b a = false)
+
+theorem mem_insertBy {α : Type} (lt : α → α → Bool) (x : α) :
+    ∀ (l : List α) (y : α), y ∈ insertBy lt x l ↔ y = x ∨ y ∈ l := by
   intro l
   induction l with
-  | nil => intro y; simp [insertSorted]
+  | nil => intro y; simp [insertBy]
   | cons a as ih =>
     intro y
-    simp only [insertSorted]
+    simp only [insertBy]
     split
     · simp only [List.mem_cons, ih]
       constructor
@@ -128,71 +252,71 @@ theorem mem_insertSorted (x : List Char) :
         · exact Or.inr (Or.inr h)
     · simp [List.mem_cons]
 
-theorem sorted_insertSorted (x : List Char) :
-    ∀ (l : List (List Char)), SortedCps l → SortedCps (insertSorted x l) := by
+theorem sorted_insertBy {α : Type} {lt : α → α → Bool} (w : WeakOrder lt) (x : α) :
+    ∀ (l : List α), SortedBy lt l → SortedBy lt (insertBy lt x l) := by
   intro l
   induction l with
-  | nil => intro _; simp [insertSorted, SortedCps]
+  | nil => intro _; simp [insertBy, SortedBy]
   | cons a as ih =>
     intro hs
-    unfold SortedCps at hs
+    unfold SortedBy at hs
     rw [List.pairwise_cons] at hs
     obtain ⟨h1, h2⟩ := hs
-    simp only [insertSorted]
+    simp only [insertBy]
     split
     · rename_i hax
-      unfold SortedCps
+      unfold SortedBy
       rw [List.pairwise_cons]
       refine ⟨?_, ih h2⟩
       intro z hz
-      rcases (mem_insertSorted x as z).mp hz with hz | hz
-      · subst hz; exact ltCps_asymm a z hax
+      rcases (mem_insertBy lt x as z).mp hz with hz | hz
+      · subst hz; exact w.asymm a z hax
       · exact h1 z hz
     · rename_i hax
-      have hax' : ltCps a x = false := by
-        cases h : ltCps a x with
+      have hax' : lt a x = false := by
+        cases h : lt a x with
         | false => rfl
         | true => exact absurd h hax
-      unfold SortedCps
+      unfold SortedBy
       rw [List.pairwise_cons, List.pairwise_cons]
       refine ⟨?_, h1, h2⟩
       intro z hz
       simp only [List.mem_cons] at hz
       rcases hz with hz | hz
       · subst hz; exact hax'
-      · exact leCps_trans x a z hax' (h1 z hz)
+      · exact w.le_trans x a z hax' (h1 z hz)
 
-theorem sortCps_spec : ∀ (l : List (List Char)),
-    SortedCps (sortCps l) ∧ (∀ y, y ∈ sortCps l ↔ y ∈ l) ∧ (sortCps l).length = l.length := by
+theorem sortBy_spec {α : Type} {lt : α → α → Bool} (w : WeakOrder lt) : ∀ (l : List α),
+    SortedBy lt (sortBy lt l) ∧ (∀ y, y ∈ sortBy lt l ↔ y ∈ l) ∧ (sortBy lt l).length = l.length := by
   intro l
   induction l with
-  | nil => simp [sortCps, SortedCps]
+  | nil => simp [sortBy, SortedBy]
   | cons a as ih =>
     obtain ⟨h1, h2, h3⟩ := ih
-    have e : sortCps (a :: as) = insertSorted a (sortCps as) := rfl
+    have e : sortBy lt (a :: as) = insertBy lt a (sortBy lt as) := rfl
     rw [e]
-    refine ⟨sorted_insertSorted a _ h1, ?_, ?_⟩
+    refine ⟨sorted_insertBy w a _ h1, ?_, ?_⟩
     · intro y
-      rw [mem_insertSorted, h2]
+      rw [mem_insertBy, h2]
       simp
-    · have : ∀ (l : List (List Char)), (insertSorted a l).length = l.length + 1 := by
+    · have : ∀ (l : List α), (insertBy lt a l).length = l.length + 1 := by
         intro l
         induction l with
         | nil => rfl
         | cons b bs ihb =>
-          simp only [insertSorted]
+          simp only [insertBy]
           split
           · simp [ihb]
           · simp
       rw [this, h3]
       simp
 
-theorem sorted_getLast (l : List (List Char)) (hs : SortedCps l) (hne : l ≠ []) :
-    ∀ y ∈ l, ltCps (l.getLast hne) y = false := by
+theorem sorted_getLast {α : Type} {lt : α → α → Bool} (w : WeakOrder lt) (l : List α)
+    (hs : SortedBy lt l) (hne : l ≠ []) : ∀ y ∈ l, lt (l.getLast hne) y = false := by
   induction l with
   | nil => exact absurd rfl hne
   | cons a as ih =>
-    unfold SortedCps at hs
+    unfold SortedBy at hs
     rw [List.pairwise_cons] at hs
     obtain ⟨h1, h2⟩ := hs
     intro y hy
@@ -200,7 +324,7 @@ theorem sorted_getLast (l : List (List Char)) (hs : SortedCps l) (hne : l ≠ []
     | nil =>
       simp only [List.mem_cons, List.not_mem_nil, or_false] at hy
       subst hy
-      simp [ltCps_irrefl]
+      simp [w.irrefl]
     | cons b bs =>
       rw [List.getLast_cons (by simp)]
       simp only [List.mem_cons] at hy
@@ -210,16 +334,17 @@ theorem sorted_getLast (l : List (List Char)) (hs : SortedCps l) (hne : l ≠ []
       · exact ih h2 (by simp) y (by simpa using hy)
 
 /-- The text for a whole ranged attribute: nothing for no columns, the coordinate for one column,
-otherwise `lo:hi` where `lo` and `hi` are coordinates of the range, smallest and largest in
-Python's *string* order. -/
+otherwise `lo:hi` where `lo` and `hi` are coordinates of the range, least and greatest in the order
+of `_coord_sort_key` (shorter column name first, then column name, then row number). -/
 theorem rangeDescr_spec (coords : List (List Char)) :
-    (coords = [] ∧ rangeDescr (sortCps coords) = Gen.C18.skippedOrigin) ∨
-    (∃ c, coords = [c] ∧ rangeDescr (sortCps coords) = c) ∨
-    (2 ≤ coords.length ∧ ∃ lo hi, rangeDescr (sortCps coords) = lo ++ ':' :: hi ∧
+    (coords = [] ∧ rangeDescr (sortCoords coords) = Gen.C18.skippedOrigin) ∨
+    (∃ c, coords = [c] ∧ rangeDescr (sortCoords coords) = c) ∨
+    (2 ≤ coords.length ∧ ∃ lo hi, rangeDescr (sortCoords coords) = lo ++ ':' :: hi ∧
       lo ∈ coords ∧ hi ∈ coords ∧
-      ∀ c ∈ coords, ltCps c lo = false ∧ ltCps hi c = false) := by
-  obtain ⟨hs, hm, hl⟩ := sortCps_spec coords
-  cases hsc : sortCps coords with
+      ∀ c ∈ coords, ltCoord c lo = false ∧ ltCoord hi c = false) := by
+  obtain ⟨hs, hm, hl⟩ := sortBy_spec weakOrder_ltCoord coords
+  unfold sortCoords
+  cases hsc : sortBy ltCoord coords with
   | nil =>
     rw [hsc] at hl
     have : coords = [] := by cases coords with
@@ -250,13 +375,13 @@ theorem rangeDescr_spec (coords : List (List Char)) :
       · intro x hx
         have hx' := (hm x).mpr hx
         constructor
-        · unfold SortedCps at hs
+        · unfold SortedBy at hs
           rw [List.pairwise_cons] at hs
           simp only [List.mem_cons] at hx'
           rcases hx' with hx' | hx'
-          · rw [hx']; exact ltCps_irrefl c
+          · rw [hx']; exact weakOrder_ltCoord.irrefl c
           · exact hs.1 x (by simpa using hx')
-        · have := sorted_getLast (c :: d :: r) hs (by simp) x hx'
+        · have := sorted_getLast weakOrder_ltCoord (c :: d :: r) hs (by simp) x hx'
           rw [List.getLast_cons (by simp)] at this
           exact this
 
